@@ -38,9 +38,9 @@ ASSUMPTIONS = [
 REPORT_COUNTERS = ["cases", "controlled_schedules", "sweep_schedules", "double_preemption_schedules", "random_schedules",
                    "raw_races", "scheduling_points", "switches_forced", "lock_handoffs", "thread_outcomes_compared",
                    "post_run_probe_vectors", "scn_first_call", "scn_miss_same", "scn_miss_diff", "scn_next_chain",
-                   "scn_dependent", "scn_kwonly", "calls_with_keywords", "programs_with_optional_positional", "line_preempted_functions", "three_thread_schedules", "timeouts"]
+                   "scn_dependent", "scn_kwonly", "scn_after_failed_build", "calls_with_keywords", "programs_with_optional_positional", "line_preempted_functions", "three_thread_schedules", "timeouts"]
 
-SCENARIOS = ["first_call", "miss_same", "miss_diff", "next_chain", "dependent", "kwonly"]
+SCENARIOS = ["first_call", "miss_same", "miss_diff", "next_chain", "dependent", "kwonly", "after_failed_build"]
 STRATEGIES = ["sweep", "sweep", "double", "random", "raw"]
 
 
@@ -51,7 +51,7 @@ def plan(tier):
             "timeout_s": 1800 if tier == "quick" else 14000,
             "min": {"controlled_schedules": 2_000, "sweep_schedules": 1_000, "random_schedules": 200, "raw_races": 500,
                     "switches_forced": 1_500, "scn_first_call": 5, "scn_miss_same": 5, "scn_miss_diff": 5,
-                    "scn_next_chain": 5, "scn_dependent": 5, "scn_kwonly": 5, "calls_with_keywords": 15}}
+                    "scn_next_chain": 5, "scn_dependent": 5, "scn_kwonly": 5, "scn_after_failed_build": 5, "calls_with_keywords": 15}}
 
 
 class TVF(PVF):
@@ -101,6 +101,8 @@ def teardown(res):
 def gen_case(rng, params, idx):
     scn = SCENARIOS[idx % len(SCENARIOS)]
     strat = STRATEGIES[(idx // len(SCENARIOS)) % len(STRATEGIES)]
+    if scn == "after_failed_build" and strat == "raw":
+        strat = "sweep"     # a thread left waiting for ever is decided logically by the scheduler-aware lock only
     hier = gen.gen_hierarchy(rng, rng.randint(2, 4), attrs=False)
     dep = 0.45 if scn == "dependent" else 0.1
     kinds = ("leaf", "next", "next", "nextalt") if scn == "next_chain" else ("leaf", "leaf", "next", "rec")
@@ -131,8 +133,27 @@ def gen_case(rng, params, idx):
     return spec
 
 
+LEAKS = []
+
+
 def _mk(spec, env):
     prog = Program(spec, env=env, tag="c19", vf=TVF())
+    if spec["scenario"] == "after_failed_build":
+        # history: an invalid method made the first build fail (in this, the harness thread); it was removed again,
+        # so the function is fully defined when the threads make their first calls
+        from .c18 import _bad_method
+        bad = _bad_method("callnext", spec, prog.ns, prog.vf)
+        prog.ov.register(bad)
+        prog.vf.reset(())
+        a = prog.args(spec["warm"])
+        try:
+            prog.fn(*a[0], **a[1])
+        except Exception:  # noqa: BLE001
+            pass
+        prog.ov.unregister(bad)
+        prog.bind()
+        LEAKS.extend(sched.held_at_quiescence())
+        return prog
     if spec["scenario"] != "first_call":
         prog.ov.compile()
         if spec["scenario"] in ("miss_same", "miss_diff", "next_chain", "dependent", "kwonly"):
@@ -206,7 +227,16 @@ def check_case(spec, res):
     rng = random.Random(spec["seed"])
     nthreads = 3 if strat in ("random", "raw") and rng.random() < 0.4 else 2
     calls = spec["calls"][:nthreads]
+    del LEAKS[:]
     seq, ref = _sequential(spec, env, calls)
+    if LEAKS:
+        res.count("locks_found_held_at_quiescence")
+        res.violation("lock-held-at-quiescence", [scn, sorted(set(LEAKS))], spec,
+                      observed={"after": "a failed build that was repaired, no library function running",
+                                "locks_still_held_by_the_calling_thread": sorted(set(LEAKS))},
+                      acceptable="no library lock is held between calls (another thread's first call would wait for ever)")
+        del LEAKS[:]
+        return
     res.count("calls_with_keywords", sum(1 for c in calls if c.get("kw")))
     if spec.get("has_optional"):
         res.count("programs_with_optional_positional")
